@@ -52,6 +52,20 @@ def run_find(case, atol=0.05, hints=None, seed=0):
         return find_pattern_in_structure(case['structure'], case['pattern'], return_positions_and_quats=True, atol=atol, **kw)
 
 
+def search(case, spec):
+    """The search of one generated case.  With spec['history'] the same Atoms object is first searched as generated, then modified IN PLACE
+    (everything translated by a fixed vector and wrapped back into the cell: the planted index tuples stay what they were) and searched again;
+    the result of the second search is what is checked, against the structure as it is then."""
+    atol = spec.get('atol', 0.05)
+    if spec.get('history'):
+        run_find(case, atol, spec.get('hints'), spec.get('rng', 0))
+        S = case['structure']
+        cell = np.asarray(case['cell'], dtype=float)
+        S.translate(np.array(spec['history'], dtype=float).dot(cell))
+        S.positions[:] = np.array([geo.wrap(cell, p) for p in S.positions])
+    return run_find(case, atol, spec.get('hints'), spec.get('rng', 0))
+
+
 def boundary2_case(offset, atol=0.05):
     """Planar 6-atom pattern; in the structure the two interior atoms are displaced out of plane by +/-1.0008 atol while the axis /
     orientation atoms are exact: no rotation + translation brings every atom within atol, so it must not be reported."""
@@ -127,7 +141,46 @@ def methane_case(seed):
     return dict(structure=S, pattern=pat, cell=cell, planted=[(1,) + tuple(2 + i for i in trio) for trio in _it.combinations(range(4), 3)], poses=[])
 
 
+def element_lookalike_case(seed):
+    """Pattern with two-letter element symbols; next to the true copies the structure holds rigid copies in which one atom (never all) carries a
+    symbol that is a prefix / an extension of the pattern atom's (Cl -> C, Si -> S, Na -> N; C -> Cl, N -> Na): same geometry,
+    other element, so they must not be reported."""
+    from mofun import Atoms
+    rnd = random.Random(seed)
+    cell = geo.CELLS[['cubic', 'tri+', 'ortho'][seed % 3]]
+    pel, coords = [(['Si', 'Cl'], [[0., 0, 0], [2.05, 0, 0]]),
+                   (['C', 'Cl', 'Na'], [[0., 0, 0], [1.77, 0, 0], [-0.6, 2.1, 0]]),
+                   (['Cl', 'C', 'N', 'Si'], [[0., 0, 0], [1.77, 0, 0], [2.4, 1.2, 0.1], [2.2, -0.4, 1.6]]),
+                   (['Na', 'N', 'O'], [[0., 0, 0], [2.3, 0, 0], [3.0, 1.1, 0]])][(seed // 3) % 4]
+    coords = np.array(coords)
+    swaps = {'Cl': ['C'], 'Si': ['S', 'I'], 'Na': ['N'], 'C': ['Cl', 'Co'], 'N': ['Na', 'Ni'], 'O': ['Os']}
+    variants = [list(pel)]
+    for k in range(len(pel)):
+        for alt in swaps.get(pel[k], []):
+            v = list(pel); v[k] = alt
+            variants.append(v)
+    rnd.shuffle(variants)
+    variants = [list(pel)] + [v for v in variants if v != list(pel)][:7]
+    grid = [(x, y, z) for x in (0.2, 0.7) for y in (0.2, 0.7) for z in (0.2, 0.7)]
+    rnd.shuffle(grid)
+    rots = geo.rotations(rnd, len(variants), include_axis=True)
+    els, pts, planted = [], [], []
+    for v, g, rot in zip(variants, grid, rots):
+        centre = np.array(g).dot(cell)
+        placed = rot.apply(coords - coords.mean(axis=0)) + centre
+        if v == list(pel):
+            planted.append(tuple(range(len(els), len(els) + len(v))))
+        els += v
+        pts += [geo.wrap(cell, p) for p in placed]
+    with quiet():
+        S = Atoms(elements=els, positions=np.array(pts), cell=cell)
+        P = Atoms(elements=list(pel), positions=coords)
+    return dict(structure=S, pattern=P, cell=cell, planted=planted, poses=[])
+
+
 def make_case(spec):
+    if spec.get('special') == 'element-lookalike':
+        return element_lookalike_case(spec['seed'])
     if spec.get('special') == 'methane':
         return methane_case(spec['seed'])
     if spec.get('special') == 'half-cell-apex':
@@ -150,7 +203,7 @@ def check_case(spec):
     case = make_case(spec)
     atol = spec.get('atol', 0.05)
     try:
-        idxs, poss, quats = run_find(case, atol, spec.get('hints'), spec.get('rng', 0))
+        idxs, poss, quats = search(case, spec)
     except Exception as e:
         return ["find_pattern_in_structure raised %r" % (e,)], 0
     msgs = []
@@ -233,6 +286,15 @@ def specs(tier, seed):
         for pat in ('pair', 'collinear3', 'planar3', 'chiral4'):
             for which in range(3):
                 out.append(dict(special='axis-poses', cell=cell, pattern=pat, which=which, seed=seed * 1000 + 650, rng=which, stretch=0.03))
+    for s in range(12 if tier == 'quick' else 36):
+        out.append(dict(special='element-lookalike', seed=seed * 1000 + s, rng=s))
+    # the same object searched twice with an in-place modification in between: the result depends on the arguments as they are at the call
+    for ci, cell in enumerate(cells):
+        for pi, pat in enumerate(('pair', 'planar3', 'chiral4', 'sym5')):
+            if tier == 'quick' and (ci + pi) % 2:
+                continue
+            out.append(dict(cell=cell, pattern=pat, copies=2, seed=seed * 1000 + 900 + ci, decoys=2, mirror=1 if pat == 'chiral4' else 0, near_miss=1,
+                            rng=pi, history=[[0.46, 0.08, -0.06], [0.31, 0.52, 0.77]][pi % 2]))
     # hint triples for small patterns
     for pat in ['pair', 'planar3', 'chiral4']:
         n = len(geo.PATTERNS[pat][0])
